@@ -544,6 +544,7 @@ class _SetOperation(Selectable, Term):  # type:ignore[misc]
 
     @builder
     def orderby(self, *fields: Field, **kwargs: Any) -> "Self":  # type:ignore[return]
+        self._orderbys = list(self._orderbys)
         for field in fields:
             field = (
                 Field(field, table=self.base_query._from[0])  # type:ignore[assignment]
@@ -563,23 +564,38 @@ class _SetOperation(Selectable, Term):  # type:ignore[misc]
 
     @builder
     def union(self, other: Selectable) -> "Self":  # type:ignore[return]
-        self._set_operation.append((SetOperation.union, other))  # type:ignore[arg-type]
+        self._set_operation = [  # type:ignore[list-item]
+            *self._set_operation,
+            (SetOperation.union, other),
+        ]
 
     @builder
     def union_all(self, other: Selectable) -> "Self":  # type:ignore[return]
-        self._set_operation.append((SetOperation.union_all, other))  # type:ignore[arg-type]
+        self._set_operation = [  # type:ignore[list-item]
+            *self._set_operation,
+            (SetOperation.union_all, other),
+        ]
 
     @builder
     def intersect(self, other: Selectable) -> "Self":  # type:ignore[return]
-        self._set_operation.append((SetOperation.intersect, other))  # type:ignore[arg-type]
+        self._set_operation = [  # type:ignore[list-item]
+            *self._set_operation,
+            (SetOperation.intersect, other),
+        ]
 
     @builder
     def except_of(self, other: Selectable) -> "Self":  # type:ignore[return]
-        self._set_operation.append((SetOperation.except_of, other))  # type:ignore[arg-type]
+        self._set_operation = [  # type:ignore[list-item]
+            *self._set_operation,
+            (SetOperation.except_of, other),
+        ]
 
     @builder
     def minus(self, other: Selectable) -> "Self":  # type:ignore[return]
-        self._set_operation.append((SetOperation.minus, other))  # type:ignore[arg-type]
+        self._set_operation = [  # type:ignore[list-item]
+            *self._set_operation,
+            (SetOperation.minus, other),
+        ]
 
     def __add__(self, other: Selectable) -> "Self":  # type:ignore[override]
         return self.union(other)
